@@ -1,0 +1,70 @@
+//go:build verif
+
+package de
+
+import (
+	abci "github.com/cometbft/cometbft/abci/types"
+
+	sdk "github.com/cosmos/cosmos-sdk/types"
+
+	"github.com/bandprotocol/chain/v3/cylinder/client"
+	"github.com/bandprotocol/chain/v3/cylinder/context"
+	"github.com/bandprotocol/chain/v3/x/tss/types"
+)
+
+// This file is compiled only with the build tag `verif`. It adds no behaviour to the daemon: it lets an
+// external conformance driver construct the DE worker with an injected client and run the steps of
+// its loop one at a time, in the caller's goroutine.
+
+// NewVerif mirrors New with an injected client (no node is dialled, nothing is subscribed).
+func NewVerif(ctx *context.Context, cli *client.Client) *DE {
+	return &DE{
+		context: ctx,
+		logger:  ctx.Logger.With("worker", "DE"),
+		client:  cli,
+	}
+}
+
+// VerifIntervalUpdateDE runs intervalUpdateDE (the body of the ticker branch of Start, and its
+// start-up call) synchronously.
+func (de *DE) VerifIntervalUpdateDE() error {
+	return de.intervalUpdateDE()
+}
+
+// VerifAssignEvent is the body of the `case <-de.assignEventCh:` branch of Start.
+func (de *DE) VerifAssignEvent() {
+	de.cntUsed += 1
+	if de.cntUsed >= de.context.Config.MinDE {
+		de.updateDE(de.cntUsed)
+		de.cntUsed = 0
+	}
+}
+
+// VerifCntUsed reads the counter of assignment notifications since the last update.
+func (de *DE) VerifCntUsed() uint64 {
+	return de.cntUsed
+}
+
+// VerifEventPubDEs is deleteDEFromABCIEvents without the `go`: the public DEs for which it spawns
+// deleteDE, in its order. ok is false where it logs the parse error and returns.
+func (de *DE) VerifEventPubDEs(abciEvents []abci.Event) (pubDEs []types.DE, ok bool) {
+	events := sdk.StringifyEvents(abciEvents)
+	for _, ev := range events {
+		if ev.Type == types.EventTypeSubmitSignature || ev.Type == types.EventTypeDEDeleted {
+			parsed, err := ParsePubDEFromEvents(sdk.StringEvents{ev}, ev.Type)
+			if err != nil {
+				return pubDEs, false
+			}
+
+			for _, pubDE := range parsed {
+				pubDEs = append(pubDEs, pubDE.PubDE)
+			}
+		}
+	}
+	return pubDEs, true
+}
+
+// VerifDeleteDE runs deleteDE synchronously.
+func (de *DE) VerifDeleteDE(pubDE types.DE) {
+	de.deleteDE(pubDE)
+}
